@@ -240,7 +240,7 @@ PROPS = {
         ],
     },
     "C18": {
-        "units": ["http", "config"],
+        "units": ["http", "config", "evloop"],
         "design_ref": "DESIGN.md section 5 C18",
         "technique": "Verus call-site preconditions on the transmission shim (client built from exactly the configured roots, no insecure switch)",
         "text": "Deductive proof that every request of http.rs is sent through a client whose added roots are exactly the "
@@ -249,7 +249,7 @@ PROPS = {
         "assumptions": [
             "T: reqwest/native-tls validate the chain and host name against system roots plus the added roots (the validation itself is not modelled)",
             "T: the ClientBuilder/Client/RequestBuilder ghost views in prelude/reqwest.rs (roots, insecure) reflect the library",
-            "X: how the command-line list reaches to_generic (main.rs / MainEventLoop::new)",
+            "X: how --root-cert reaches MainEventLoop::new (main.rs argument parsing); from there on every endpoint object is built with that list (unit evloop)",
         ],
     },
     "C09": {
